@@ -229,7 +229,7 @@ def run(ctx):
         cfg = ml.cfg
         reads = bflow.field_reads(ml, RUNNING)
         ctx.floor("R07.3", "tests of running in mainEventLoop", len(reads), 3)
-        read_blocks = {b for b, f, t in reads}
+        read_blocks = {b for b, f, t, rb in reads}
         work = ("selectEventlessTransitions", "selectTransitions", "microstep", "invoke")
         forbidden = {}
         for nm in work:
@@ -248,8 +248,12 @@ def run(ctx):
         def after(start):
             r = cfg.reachable_from(start, avoiding=read_blocks - {start}) if start is not None else set()
             return sorted({forbidden[b] for b in r if b in forbidden and b != start})
-        for i, (b, f, t) in enumerate(sorted(reads)):
+        for i, (b, f, t, rb) in enumerate(sorted(reads)):
             bad = after(f) if f is not None else ["no false edge"]
+            if rb != b:
+                # the value was read earlier (hoisted let): nothing may run between the read and the test
+                stale = sorted({forbidden[x] for x in cfg.reachable_from(rb, avoiding={b}) if x in forbidden})
+                bad = bad + ["stale:" + x for x in stale]
             reaches_exit = f is not None and any(x in cfg.reachable_from(f) for x in xi)
             ctx.ob("R07.3", site_key(ml, "running==false leads to no further work", i), not bad and reaches_exit, _mir_where(ml, b),
                    "work reachable from the false edge before the next test: %s; exitInterpreter reachable: %s" % (bad, reaches_exit))
